@@ -36,8 +36,8 @@ def nontrivial(c):
 
 def run(ctx):
     q = ctx.quick
-    shapes = [11, 12, 13, 14, 21, 22, 23, 24, 31, 32, 33, 34, 41, 42, 43] + ([] if q else [44, 15, 25, 35])
-    consts = dict(Shapes="{%s}" % ", ".join(map(str, shapes)), BFLimit=27 if q else 256)
+    shapes = [11, 12, 13, 14, 21, 22, 23, 24, 31, 32, 33, 34, 41, 42, 43] + ([] if q else [44, 15, 25])
+    consts = dict(Shapes="{%s}" % ", ".join(map(str, shapes)), BFLimit=27 if q else 81)
     ctx.constants["GenPlacement"] = consts
     cfg = "SPECIFICATION Spec\nCONSTANTS\n" + "".join("  %s = %s\n" % kv for kv in consts.items()) + \
           "INVARIANT C07_ClosedFormIsBest\nINVARIANT C07_BestBounds\nCHECK_DEADLOCK FALSE\n"
@@ -61,19 +61,20 @@ def run(ctx):
     ctx.sample({"random_layout": rtraces[0]["consts"], "events": rtraces[0]["events"][:1]})
     judge(ctx, rtraces, ("BruteForceAgrees",), batch=1000)
     if not q:
-        # the 4 servers x 5 shares space modulo renaming of servers and of shares, enumerated by the driver
-        out = ctx.impl("harness/happiness_driver.py", ["--mode", "c07canon", "--maxs", 4, "--maxt", 5, "--nvar", 3], timeout=3000)
-        ctraces = out["traces"]
-        for t in ctraces:
-            ctx.count(json.dumps(t["consts"], sort_keys=True) if nontrivial(t["consts"]) else None, n=sum(len(e["variants"]) for e in t["events"]))
-        ctx.notes.append("4x5 canonical layouts (modulo renaming of servers in their class and of shares): %d" % len(ctraces))
-        judge(ctx, ctraces, (), batch=20000)
+        # the 3 x 5 and 4 x 5 spaces modulo renaming of servers and of shares, enumerated by the driver
+        for (ms, mt) in ((3, 5), (4, 5)):
+            out = ctx.impl("harness/happiness_driver.py", ["--mode", "c07canon", "--maxs", ms, "--maxt", mt, "--nvar", 3], timeout=3000)
+            ctraces = out["traces"]
+            for t in ctraces:
+                ctx.count(json.dumps(t["consts"], sort_keys=True) if nontrivial(t["consts"]) else None, n=sum(len(e["variants"]) for e in t["events"]))
+            ctx.notes.append("%d x %d canonical layouts (modulo renaming of servers in their class and of shares): %d" % (ms, mt, len(ctraces)))
+            judge(ctx, ctraces, (), batch=20000)
     ctx.rule = ("GEN: every layout of the shapes (servers x shares) %s with >= 1 writable server, any read-only subset, any existing-share "
                 "relation, modulo renaming of servers within their class; each replayed into share_placement under %d namings/insertion "
                 "orders (str/bytes/hex/int ids, ascending/descending/shuffled dict order), distinct results judged by TLC. TRACE: %d seeded "
                 "layouts up to 20 servers x 30 shares (fresh, sparse, re-upload, read-only heavy, dense, duplicated shares)%s. Non-trivial: "
                 "some read-only and some writable server hold existing shares." % (
-                    shapes, nvar, n, "" if q else "; plus the 4x5 space modulo renaming enumerated by the driver"))
+                    shapes, nvar, n, "" if q else "; plus the 3x5 and 4x5 spaces modulo renaming enumerated by the driver"))
     ctx.assumptions += ["TLC and the CommunityModules", "closed form of the optimum spread beyond the sizes where TLC compared it with the brute force "
                         "(GEN: servers^shares <= %s; TRACE: seeded layouts with servers^shares <= 64)" % consts["BFLimit"],
                         "the driver's observation of the phase results (wrappers around happiness_upload._calculate_mappings / _servermap_flow_graph) "
